@@ -12,6 +12,7 @@
  */
 #include "ctx.h"
 #include "scpi/error.h"
+#include "golden_errors.h"
 
 static const struct { int code; const char * text; } errlist[] = {
 #define X(def, val, str) {val, str},
@@ -129,6 +130,14 @@ int main(int argc, char ** argv) {
             if (!MC_CASE()) continue;
             mc_case_tag = "golden-description"; mc_case_i[0] = gold[i].code;
             if (strcmp(SCPI_ErrorTranslate((int16_t) gold[i].code), gold[i].text)) mc_viol("c18/description-text", "SCPI_ErrorTranslate(%d) = [%s], SCPI-99 21.8 says [%s]", gold[i].code, SCPI_ErrorTranslate((int16_t) gold[i].code), gold[i].text);
+        }
+        for (code = -32768; code <= 32767; code++) {       /* the complete list: listed numbers their description, all others the fallback */
+            const char * want = "Unknown error";
+            int g;
+            if (!MC_CASE()) continue;
+            for (g = 0; golden_errors[g].text; g++) if (golden_errors[g].code == code) want = golden_errors[g].text;
+            mc_case_tag = "golden-description"; mc_case_i[0] = code;
+            if (strcmp(SCPI_ErrorTranslate((int16_t) code), want)) mc_viol("c18/description-text", "SCPI_ErrorTranslate(%ld) = [%s], expected [%s]", code, SCPI_ErrorTranslate((int16_t) code), want);
         }
         if (MC_CASE() && strcmp(SCPI_ErrorTranslate(12345), "Unknown error")) mc_viol("c18/description-text", "SCPI_ErrorTranslate(12345) = [%s], the fallback is [Unknown error]", SCPI_ErrorTranslate(12345));
     }
